@@ -59,6 +59,26 @@ theorem complete_iff_stream (plan : Plan) (result : Bytes) :
   | encInputFail fl => simp [Plan.complete, Plan.stream]
   | enc ct => simp [Plan.complete, Plan.stream]
 
+/-! ### -version -/
+
+/-- `-version`: the world is untouched, and the exit status is 0 exactly when
+    standard output took the whole line -/
+theorem printVersion_spec (w : World) (line : Bytes) :
+    (printVersion w line).world = w ∧
+    ((printVersion w line).exit = 0 ↔ Holds .stdout w (printVersion w line) line) ∧
+    (printVersion w line).stdout <+: line := by
+  cases hso : w.stdout with
+  | terminal => simp [printVersion, Proc.writeStdout, Proc.result, Holds, hso]
+  | devFull => simp [printVersion, Proc.writeStdout, Proc.result, Holds, hso]
+  | limited cap =>
+    refine ⟨by simp [printVersion, Proc.writeStdout, Proc.result, hso], ?_, ?_⟩
+    · cases hok : (accept cap 0 line).2 with
+      | true => simp [printVersion, Proc.writeStdout, Proc.result, Holds, hso, hok, accept_ok cap 0 line hok]
+      | false =>
+        have := accept_fail_ne cap 0 line (fun _ _ => Nat.zero_le _) hok
+        simp [printVersion, Proc.writeStdout, Proc.result, Holds, hso, hok, this]
+    · simpa [printVersion, Proc.writeStdout, Proc.result, hso] using accept_prefix cap 0 line
+
 /-! ### standard output -/
 
 theorem deliver_stdout (w : World) (d : Bytes) (nf succ : Bool) :
